@@ -76,3 +76,15 @@ class SPRemote(StatefulMixin, PersistentRemoteWorker):
 
 
 CLASSES = {'thread': SThread, 'process': SProcess, 'remote': SRemote, 'p_thread': SPThread, 'p_process': SPProcess, 'p_remote': SPRemote}
+
+
+class ProbeThreadWorker(ThreadWorker):
+    """thread worker whose is_alive() is a schedule point: HOOK[0](worker) runs first (used by C19 to create another worker exactly
+    while active_children() is evaluating the liveness of a registered one)"""
+    HOOK = [None]
+
+    def is_alive(self):
+        h = ProbeThreadWorker.HOOK[0]
+        if h is not None:
+            h(self)
+        return super().is_alive()
